@@ -335,6 +335,23 @@ def install(I):
         dt = next((v.dtype for v in (a, b) if isinstance(v, NArr)), "float")
         return NArr(n, lambda i: B.ite_val(B.zbool(g(c, i)) if not isinstance(g(c, i), bool) else g(c, i), (lambda: g(a, i)), (lambda: g(b, i))), dt, "where")
 
+    @ext("select")
+    def _select(ctx, condlist, choicelist, default=0):
+        ctx.assumed_ext.add("numpy.select(condlist, choicelist, default): element-wise first choice whose condition holds, else the default")
+        conds = [as_narr(I, ctx, c) for c in I.iterate(ctx, condlist)]
+        choices = I.iterate(ctx, choicelist)
+        if len(conds) != len(choices):
+            raise I.raise_exc("ValueError")
+        if not conds:
+            raise I.raise_exc("ValueError")
+        n = conds[0].n
+        g = lambda v, i: v.elem(i) if isinstance(v, NArr) else v
+        return NArr(n, lambda i: B.Choice([(B.zbool(c.elem(i)), g(v, i)) for c, v in zip(conds, choices)], default), "object", "select")
+
+    @ext("int16")
+    def _int16(ctx, v=0):
+        return v
+
     @ext("max")
     def _max(ctx, a):
         ctx.assumed_ext.add("numpy.max(a): an element of a that is >= every element (a non-empty)")
